@@ -175,7 +175,11 @@ func init() {
 					}
 				}
 			}
-			outs, _ := runScenarioX(c, s, r, reps, &res, func(in *Inst) { in.ZeroInput1 = zero + 1 }, func(in *Inst, o *Outcome) { checkExact(in, o, false) })
+			grouped := r.Intn(4) == 0
+			if grouped {
+				res.obs("cases_with_grouped_typed_inputs", 1)
+			}
+			outs, _ := runScenarioX(c, s, r, reps, &res, func(in *Inst) { in.ZeroInput1 = zero + 1; in.GroupTyped = grouped }, func(in *Inst, o *Outcome) { checkExact(in, o, false) })
 			res.obs("distractor_converters", int64(len(s.Convs)))
 			res.Sample = sampleOf(s, outs)
 			return res
@@ -206,8 +210,12 @@ func init() {
 			}
 			res.Key = s.Key()
 			reps := tierReps(c.Tier, 3, 6)
-			outs, _ := runScenario(c, s, r, reps, &res, func(in *Inst, o *Outcome) {
-				det := map[string]interface{}{"scenario": s.String(), "class": o.Class, "err": firstLine(errStr(o.Err)), "events": eventsStr(o.Events)}
+			unsatErrs := r.Intn(5) == 0
+			if unsatErrs {
+				res.obs("cases_with_unsatisfied_typed_error_values", 1)
+			}
+			outs, _ := runScenarioX(c, s, r, reps, &res, func(in *Inst) { in.W.UnsatErrors = unsatErrs }, func(in *Inst, o *Outcome) {
+				det := map[string]interface{}{"scenario": s.String(), "class": o.Class, "err": firstLine(errStr(o.Err)), "events": eventsStr(o.Events), "unsat_typed_errors": unsatErrs}
 				for _, e := range o.Events {
 					if e.Err != nil && e.Func >= 0 {
 						res.NonTrivial = true
@@ -422,7 +430,14 @@ func init() {
 			n := names[perm[0]]
 			k := 1 + r.Intn(4)
 			var s Scenario
-			s.Inputs = append(s.Inputs, Label{Name: n, Type: T})
+			nIn := Label{Name: n, Type: T}
+			subOnN := r.Intn(4) == 0
+			if subOnN {
+				// the same-named input carries a subtype; it is still the one
+				// whose name equals the parameter's name
+				nIn.Sub = "k"
+			}
+			s.Inputs = append(s.Inputs, nIn)
 			for j := 0; j < k; j++ {
 				s.Inputs = append(s.Inputs, Label{Name: names[perm[1+j]], Type: T})
 			}
@@ -456,6 +471,17 @@ func init() {
 			typeOnlyIdx, nameIdx := 0, -1
 			if mode == 1 {
 				convN := FuncSpec{In: []Label{{Name: n, Type: T}}, Out: []Label{outL}, HasErr: r.Intn(2) == 0}
+				if subOnN {
+					convN.In[0].Sub = "k"
+				}
+				// the explicit-name converter may be wide: further named
+				// inputs (all supplied) do not make it less "the converter
+				// that uses the name"
+				for w := r.Intn(3) * r.Intn(5); w > 0; w-- {
+					extra := Label{Name: fmt.Sprintf("x%d", w), Type: pick(r, others)}
+					convN.In = append(convN.In, extra)
+					s.Inputs = append(s.Inputs, extra)
+				}
 				if r.Intn(6) == 0 {
 					convN.InForm, convN.OutForm, convN.HasErr = FormBuilt, FormBuilt, true
 				} else {
@@ -603,7 +629,11 @@ func runC07Multi(c *CaseCtx, r *rand.Rand, names []string) (res CaseResult) {
 			wanted = append(wanted, names[perm[i]])
 		}
 		for i := 0; i < np+r.Intn(3); i++ {
-			s.Inputs = append(s.Inputs, Label{Name: names[perm[i]], Type: T})
+			l := Label{Name: names[perm[i]], Type: T}
+			if i < np && r.Intn(5) == 0 {
+				l.Sub = "k"
+			}
+			s.Inputs = append(s.Inputs, l)
 		}
 		conv := FuncSpec{In: []Label{{Type: T}}, Out: []Label{{Type: U}}, InForm: r.Intn(3), OutForm: r.Intn(3), HasErr: r.Intn(2) == 0}
 		s.Convs = []FuncSpec{conv}
